@@ -3,6 +3,7 @@ package media
 import (
 	"time"
 
+	"github.com/cnotch/ipchub/av/format/hls"
 	"github.com/cnotch/ipchub/av/format/rtp"
 	"github.com/cnotch/ipchub/media/cache"
 	"github.com/cnotch/ipchub/zzverif/symapi"
@@ -367,4 +368,13 @@ func VerifJoinBaseCase() {
 		symapi.Assert(c.recvQueue.Len() == r+2, "queue-holds-exactly-the-replay")
 	}
 	symapi.Reach("end")
+}
+
+// VerifStreamWithHls lets harnesses of other packages register a stream whose HLS playlist is
+// the given one.
+func VerifStreamWithHls(path string, pl *hls.Playlist) *Stream {
+	s := verifStream(path)
+	s.hlsPlaylist = pl
+	Regist(s)
+	return s
 }
